@@ -22,18 +22,30 @@ type c15Case struct {
 	Stream vstat.Q `json:"stream"`
 	Chunks []int   `json:"chunks"` // sizes of successive reads offered by the source; 0 = empty read
 	Buf    int     `json:"buf"`    // LineReader buffer size
+	// EOFWithData: the source returns its last bytes together with io.EOF in
+	// one Read call (allowed by the io.Reader contract, cf. iotest.DataErrReader)
+	EOFWithData bool `json:"eof_with_data,omitempty"`
 }
 
 // scriptReader hands out the stream in the scripted pieces (a piece larger
 // than the caller's buffer is handed out in buffer-sized parts).
 type scriptReader struct {
-	data   []byte
-	chunks []int
-	ci     int
-	reads  int
+	data        []byte
+	chunks      []int
+	ci          int
+	reads       int
+	eofWithData bool
 }
 
 func (r *scriptReader) Read(p []byte) (int, error) {
+	n, err := r.read(p)
+	if err == nil && r.eofWithData && n > 0 && len(r.data) == 0 {
+		return n, io.EOF
+	}
+	return n, err
+}
+
+func (r *scriptReader) read(p []byte) (int, error) {
 	r.reads++
 	for {
 		if len(r.data) == 0 {
@@ -117,7 +129,7 @@ func runC15x(c c15Case, countCheck bool) *vstat.Failure {
 	if countCheck {
 		before = logLinesFor(src)
 	}
-	r := &scriptReader{data: []byte(stream), chunks: append([]int(nil), c.Chunks...)}
+	r := &scriptReader{data: []byte(stream), chunks: append([]int(nil), c.Chunks...), eofWithData: c.EOFWithData}
 	lr := logstream.NewLineReader(src, ch, r, c.Buf, func() {})
 	ctx := context.Background()
 	total := 0
@@ -262,6 +274,7 @@ func TestC15(t *testing.T) {
 			}
 			c.Stream = vstat.Q(sb.String())
 			c.Buf = rapid.SampledFrom([]int{1, 2, 3, 4, 5, 6, 7, 8, 64, 4096, 131072}).Draw(rt, "buf")
+			c.EOFWithData = rapid.Bool().Draw(rt, "eofWithData")
 			maxChunk := rapid.SampledFrom([]int{1, 2, 3, 8, 100, 5000}).Draw(rt, "maxchunk")
 			remaining := len(c.Stream)
 			for remaining > 0 && len(c.Chunks) < 3000 {
@@ -288,7 +301,7 @@ func TestC15(t *testing.T) {
 func c15Exhaustive(t *testing.T, st *vstat.Stats) {
 	maxLen := vstat.Scale(5, 7)
 	alpha := []byte{'\n', '\r', 'a', 0xe4}
-	sizes := []int{1, 2, 3, 64}
+	sizes := []int{1, 2, 3, 64, -1, -2, -3, -64} // negative: same size, last bytes delivered together with io.EOF
 	shard, shards := vstat.Shard()
 	idx := 0
 	var rec func(prefix []byte)
@@ -312,8 +325,12 @@ func c15Exhaustive(t *testing.T, st *vstat.Stats) {
 			if n > 0 {
 				chunks = append(chunks, cur)
 			}
-			for _, size := range sizes {
-				c := c15Case{Stream: vstat.Q(s), Chunks: chunks, Buf: size}
+			for _, sz := range sizes {
+				size, ewd := sz, false
+				if sz < 0 {
+					size, ewd = -sz, true
+				}
+				c := c15Case{Stream: vstat.Q(s), Chunks: chunks, Buf: size, EOFWithData: ewd}
 				st.Eval()
 				cl := c15Classes(c)
 				if len(cl) > 0 {
@@ -347,6 +364,6 @@ func c15Exhaustive(t *testing.T, st *vstat.Stats) {
 		}
 	}
 	rec(nil)
-	st.Extra("exhaustive_scope", fmt.Sprintf("all streams of length <= %d over {LF, CR, 'a', 0xe4} x all compositions into reads x buffer sizes %v (partitioned over %d shard(s))", maxLen, sizes, shards))
+	st.Extra("exhaustive_scope", fmt.Sprintf("all streams of length <= %d over {LF, CR, 'a', 0xe4} x all compositions into reads x buffer sizes {1,2,3,64} x {EOF on its own, EOF together with the last bytes}%.0v (partitioned over %d shard(s))", maxLen, sizes, shards))
 	st.Exhaustive = true
 }
